@@ -40,6 +40,7 @@ def install(B):
     reg("IntRange", lambda ip, a, k: Shape("intrange", a[0], a[1]))
     reg("Enum", lambda ip, a, k: Shape("enum", a[0]))
     reg("ClassOf", lambda ip, a, k: Shape("class", a[0]))
+    reg("EnumConst", lambda ip, a, k: Shape("enumconst", a[0], a[1]))
     reg("Elem", lambda ip, a, k: Shape("elem", a[0], **k))
     reg("Instance", lambda ip, a, k: Shape("instance", a[0], **k))
     reg("MapOf", lambda ip, a, k: Shape("map", a[0], a[1]))
@@ -195,6 +196,12 @@ class Maker:
             return sh.a[0]
         if k == "class":
             return resolve_class(ip, sh.a[0])
+        if k == "enumconst":
+            cls = resolve_class(ip, sh.a[0])
+            m = cls.lookup(sh.a[1])
+            if m is None:
+                raise EngineError(f"enum {sh.a[0]} has no member {sh.a[1]}")
+            return m
         if k == "opaque":
             return Opaque(self.const(name, usort(sh.a[0]), idx), sh.a[0])
         if k == "opt":
